@@ -98,8 +98,19 @@ def load_corpus():
     out = []
     if os.path.exists(path):
         for k, l in enumerate(open(path)):
-            if l.strip():
+            if l.strip() and "family" not in json.loads(l):
                 out.append(case_from_json(json.loads(l), "corpus_%d" % k))
+    return out
+
+
+def load_contention_corpus():
+    """corpus lines of the CONTENTION family (gen/par_contention.py): generator parameters of big parallel runs, run on every check"""
+    path = os.path.join(lib.VERIF, "corpus", PROP + ".jsonl")
+    out = []
+    if os.path.exists(path):
+        for k, l in enumerate(open(path)):
+            if l.strip() and json.loads(l).get("family") == "par_contention":
+                out.append(dict(json.loads(l), id="corpus_cont_%d" % k))
     return out
 
 
@@ -258,8 +269,23 @@ def vocabulary_checks():
     return n
 
 
+def contention_replay(rp):
+    """replay of a mismatch of the CONTENTION family: the same generated input in the same pool, several rounds"""
+    from .. import par_contention
+    r = par_contention.replay(rp["case"])
+    return dict(evaluations=r["evaluations"], distinct_nontrivial=r["distinct"], rule="replay of a big ascent_par! run (gen/par_contention.py): 8 rounds (+ 4 perturbed)",
+                samples=[], distribution=r["distribution"], mismatches=r["mismatches"], trusted_base=[], assumptions=[], extra={})
+
+
 def tie(tier, seed, replay):
+    if replay and json.load(open(replay)).get("case", {}).get("family") == "par_contention":
+        return contention_replay(json.load(open(replay)))
     nvoc = vocabulary_checks()
+    # CONTENTION family first (the machine is quietest now): few BIG ascent_par! lattice / relation runs judged by the python specification
+    contention = None
+    if not replay:
+        from .. import par_contention
+        contention = par_contention.run(tier, seed, tag="c03", extra_cases=load_contention_corpus())
     if replay:
         rp = json.load(open(replay))
         cases = [case_from_json(dict(prog=rp["case"]["prog"], inputs=rp["case"]["inputs"]), "replay_0")]
@@ -315,8 +341,12 @@ def tie(tier, seed, replay):
         planlat = plan_lat.run(tier, seed)
         mism += planlat.pop("mismatches")
         planlat = {k: v for k, v in planlat.items() if not k.startswith("_")}
-    return dict(evaluations=sum(len(r["case"]["inputs"]) for r in ok), distinct_nontrivial=len(distinct),
-                rule="lattice programs (shortest / widest path, reachability sets, constant propagation, random monotone programs over u32-max, Dual<u32>, Option<u32>, bool, (u32,u32), Set<u32>, BoundedSet<2,u32>, ConstPropagation<u32>; arities 1-3; component-wise maxima / lock-step recursion / paths / non-linear merges / random monotone programs over the composite columns Product<[u32;2]>, Product<[u32;3]>, Dual<Product<[u32;2]>>, Option<Product<[u32;2]>>, Product<[Dual<u32>;2]>, Product<(u32,Dual<u32>,u32)>, Product<(u32,Dual<u32>)>, Rc / Box / Reverse<Product<[u32;2]>> with the values of a key arriving in random / rising / falling order) x 3-4 inputs (incl. graphs on which one key is improved up to 12 times over as many iterations, lattice-typed input rows); non-trivial = a lattice relation is dynamic in a looping SCC and the run changes a lattice relation; distinct = distinct (plan summary, input)",
+    cont_ev = cont_di = 0
+    if contention:
+        mism += contention["mismatches"]
+        cont_ev, cont_di = contention["evaluations"], contention["distinct"]
+    return dict(evaluations=sum(len(r["case"]["inputs"]) for r in ok) + cont_ev, distinct_nontrivial=len(distinct) + cont_di,
+                rule="lattice programs (shortest / widest path, reachability sets, constant propagation, random monotone programs over u32-max, Dual<u32>, Option<u32>, bool, (u32,u32), Set<u32>, BoundedSet<2,u32>, ConstPropagation<u32>; arities 1-3; component-wise maxima / lock-step recursion / paths / non-linear merges / random monotone programs over the composite columns Product<[u32;2]>, Product<[u32;3]>, Dual<Product<[u32;2]>>, Option<Product<[u32;2]>>, Product<[Dual<u32>;2]>, Product<(u32,Dual<u32>,u32)>, Product<(u32,Dual<u32>)>, Rc / Box / Reverse<Product<[u32;2]>> with the values of a key arriving in random / rising / falling order) x 3-4 inputs (incl. graphs on which one key is improved up to 12 times over as many iterations, lattice-typed input rows); non-trivial = a lattice relation is dynamic in a looping SCC and the run changes a lattice relation; distinct = distinct (plan summary, input); PLUS the contention family (gen/par_contention.py): 5 fixed ascent_par! programs (max / Dual with a 2-column key under inter-rule parallelism / cheapest path recursive through the lattice / Set and Product partial orders / plain projections and a join) on 10^4-10^5 keys each derived 3-16 times in one iteration, pools of 4-16 threads, 6 rounds per big input (12 thorough) + small inputs under seeded perturbation, oracle = one row per key holding the least upper bound computed by python from the input rows; every completed round counts as one evaluation",
                 samples=sample, distribution=dict(programs=len(ok), shapes=shapes, features=feats, input_styles=styles, recursive_changing_runs=nontriv,
                                                    most_raised_key_times=dict(sorted(raised_hist.items())), naive_rounds=dict(sorted(rounds_hist.items())),
                                                    runs_with_a_join_moving_2plus_components=multi_runs, joins_moving_2plus_components=multi_joins,
@@ -325,8 +355,9 @@ def tie(tier, seed, replay):
                 trusted_base=["FRONT hook (ascent_macro/src/verif_hook.rs) printing the MIR plan; gen/c03_gen.py pairing the dumped plan with the source rules (core-form programs: checked by shape) and rendering Rust / Coq; gen/prog.py generated crates",
                               "gen/c03_vocab.py: the coding of lattice values as integers and the monotone vocabulary, written three times (Rust templates, coq/LatEngine/LatVocab.v + LatVocabArr.v, python); a disagreement between them shows up as a mismatch; join_mut of the composite types is not rewritten in the vocabulary: it is Lattice/LatModel.v `jm (denote t)` (the C16 model) transported to codes",
                               "code generation from MIR to Rust (ascent_codegen.rs) is modelled by hand in LatEngine/LatEval.v and tied by these runs, not verified",
-                              "rustc, hashbrown / std collections meet their documented semantics"],
+                              "rustc, hashbrown / std collections meet their documented semantics",
+                              "contention family: harness/par_contention (fixed ascent_par! programs, a pure driver: binary input rows in, rows of every relation out, nothing checked there); the schedules of the real binary are SAMPLED (a handful of rounds per input), never enumerated: a violation that needs a rarer interleaving than ~1 in 10 rounds of 10^5 keys can be missed; Engine/ParLatLookup.v states what the parallel head update needs from the key-index lookup (the re-check under the key mutex must be reliable), the real DashMap is not modelled"],
                 assumptions=["lattice laws of the shipped lattice types: property C16", "generated programs are monotone by construction (vocabulary of monotone operations and upward-closed tests)",
                              "inputs hold at most one row per key of a lattice relation", "values stay far inside u32 / i32",
                              "hash-map iteration order: the model uses a fixed (alternating) order; the compared observables are order-independent by the C03 theorems"],
-                extra=dict(planner_model_on_lattice_programs=planlat, vocabulary_rows_checked_coq_vs_python=nvoc, cases_skipped_model_too_slow=nskipped, programs=len(ok), plans_validated=sum(1 for r in ok if r["valid"] is True)))
+                extra=dict(contention_family=(contention or {}).get("distribution"), planner_model_on_lattice_programs=planlat, vocabulary_rows_checked_coq_vs_python=nvoc, cases_skipped_model_too_slow=nskipped, programs=len(ok), plans_validated=sum(1 for r in ok if r["valid"] is True)))
